@@ -400,6 +400,8 @@ bool Xml::Private::parseElement(Element& element)
 
 bool Xml::Private::parseText(String& text)
 {
+  if(String::compare(pos.pos, "<!--", 4) == 0) // a comment in front of the text (it was skipped by readToken, but the position has been restored)
+    skipSpace();
   const char* start = pos.pos;
   for(;;)
   {
